@@ -34,6 +34,8 @@ type Prog struct {
 	allFns  map[*ssa.Function]bool
 	fnByKey map[string]*ssa.Function
 	eff     *Effects
+	e3      *E3
+	tables  *Tables
 }
 
 // out-of-scope main packages
